@@ -28,6 +28,7 @@ type lifeReq struct {
 	respErr       int    // requestor response hook errors at its n-th call (0 = never)
 	inBlk         string // "" | pause | error (requestor incoming block hook)
 	inBlkAt       int64
+	setupCancel   bool // the caller's context is cancelled while the request is being set up (from the outgoing-request hook)
 	actions       []*lifeAction
 	ctxCancelStep int  // step at which the caller cancelled the context (0 = never)
 	ctxCancelHeld bool // the requestor still held the request (tag protected) when the context was cancelled
@@ -141,6 +142,9 @@ func (s *life) Build(w *World) {
 		if t.Chance(100) {
 			lr.respErr = 1 + t.Draw(2)
 		}
+		if t.Chance(70) {
+			lr.setupCancel = true
+		}
 		if t.Chance(200) && (s.allowRequestorPause || true) {
 			lr.inBlk = "error"
 			if s.allowRequestorPause && t.Chance(500) {
@@ -177,6 +181,9 @@ func (s *life) Build(w *World) {
 			an = append(an, fmt.Sprintf("%s@%d", a.name, a.at))
 		}
 		s.descr += fmt.Sprintf("[%s %s>B dag=%d req=%s blk=%s@%d respErr=%d inBlk=%s@%d acts=%s]", lr.r.Label, from.Name, len(lr.dag.Order), lr.reqHook, lr.blkHook, lr.blkAt, lr.respErr, lr.inBlk, lr.inBlkAt, strings.Join(an, ","))
+		if lr.setupCancel {
+			s.descr += "{cancel-during-setup}"
+		}
 	}
 	byID := map[graphsync.RequestID]*lifeReq{}
 	for _, lr := range s.reqs {
@@ -226,6 +233,15 @@ func (s *life) Build(w *World) {
 			calls[r.RequestID()]++
 			if calls[r.RequestID()] == lr.respErr {
 				a.TerminateWithError(errors.New("sim: response hook refuses"))
+			}
+		}
+		n.OnOutgoingRequest = func(p peer.ID, r graphsync.RequestData, a graphsync.OutgoingRequestHookActions) {
+			if lr := byID[r.ID()]; lr != nil && lr.setupCancel && lr.ctxCancelStep == 0 {
+				// the caller gives up at the worst moment: the request is half set up
+				w.Probe("act:ctxcancel-during-setup")
+				w.Effect("act %s %s ctxcancel during setup", n.Name, lr.r.Label)
+				lr.ctxCancelStep = w.Step
+				lr.r.Cancel()
 			}
 		}
 		n.OnIncomingBlock = func(p peer.ID, r graphsync.ResponseData, b graphsync.BlockData, a graphsync.IncomingBlockHookActions) {
